@@ -358,6 +358,29 @@ def run(ctx, rep):
     rep.extra['configurations'] = ['C (platform/gcc_new/atomic.h)', 'CXX (platform/c++11/atomic.h)', 'C11 (platform/c11/atomic.h)']
     rep.assumptions += ['C++20 release-sequence rules: relaxed RMWs that transfer no ownership do not break a release/acquire chain through the same word',
                         'happens-before over whole executions is not computed; each constrained site is individually necessary for one of the listed hand-offs']
+    # ---- R5: the once hand-off needs more than the right orders on its sites: the acquire load has to be the caller's *last* observation
+    # before it returns and has to have seen the done value (a waiter that leaves its wait loop on a cv wake-up - the cv is shared by every
+    # once word that hashes to the same slot - returns with orders intact but without the edge).  Decided by C07.R3's interpretation.
+    from . import C07
+    from ..report import Report
+    class _Sub(Report):
+        def finish(self, *a, **k):
+            return 0
+    sub = _Sub('C07', rep.tier, rep.level)
+    C07.run(ctx, sub)
+    rep.rule('C03.R5', 'once: every return is preceded by an acquire load of the once word that saw the done value (or the own release store)')
+    r3 = sub.rules.get('C07.R3', {'instances': 0, 'obligations': 0, 'discharged': 0, 'samples': []})
+    for smp in r3['samples']:
+        rep.instance('C03.R5', smp)
+    rep.rules['C03.R5']['instances'] = max(rep.rules['C03.R5']['instances'], r3['instances'])
+    rep.rules['C03.R5']['obligations'] += r3['obligations']; rep.rules['C03.R5']['discharged'] += r3['discharged']
+    rep.functions.update(sub.functions)
+    for v in sub.violations:
+        if v.rule == 'C07.R3':
+            v.rule = 'C03.R5'
+            v.msg = 'no happens-before edge from the once-function to this return: ' + v.msg
+            rep.violate(v)
+    rep.floor('C03.R5', 8)
     return rep.finish(
         explanation='Declared memory order of every atomic site (from the IR instruction) compared with the order its role requires; roles of lock-word sites are derived from the interpreted transitions, roles of publication flags from a table keyed by field and use; the three atomic.h flavours are joined by source position.',
         trusted_base=['clang 14 IR of the three configurations', 'nsa/symex.py effect signatures', 'the role table in nsa/rules/C03.py'])
